@@ -374,3 +374,62 @@ func (in *inliner) boolLocalDef(id *ast.Ident) ast.Expr {
 	}
 	return def
 }
+
+// expandLocals returns e with every local that has exactly one definition in body replaced by that
+// definition (repeatedly), so a rule sees `clz((h << k) | guard)` whether or not the sub-expressions
+// were first put into temporaries.
+func expandLocals(info *types.Info, body *ast.BlockStmt, e ast.Expr) ast.Expr {
+	defs := map[types.Object]ast.Expr{}
+	count := map[types.Object]int{}
+	ast.Inspect(body, func(n ast.Node) bool {
+		switch v := n.(type) {
+		case *ast.AssignStmt:
+			if len(v.Lhs) == len(v.Rhs) {
+				for i, l := range v.Lhs {
+					if id, ok := l.(*ast.Ident); ok {
+						if obj := info.ObjectOf(id); obj != nil {
+							count[obj]++
+							defs[obj] = v.Rhs[i]
+						}
+					}
+				}
+			} else {
+				for _, l := range v.Lhs {
+					if id, ok := l.(*ast.Ident); ok {
+						count[info.ObjectOf(id)] += 2
+					}
+				}
+			}
+		case *ast.IncDecStmt:
+			if id, ok := v.X.(*ast.Ident); ok {
+				count[info.ObjectOf(id)] += 2
+			}
+		case *ast.RangeStmt:
+			for _, x := range []ast.Expr{v.Key, v.Value} {
+				if id, ok := x.(*ast.Ident); ok {
+					count[info.ObjectOf(id)] += 2
+				}
+			}
+		}
+		return true
+	})
+	repl := map[types.Object]ast.Expr{}
+	for o, n := range count {
+		if n == 1 && o != nil {
+			if _, isCall := ast.Unparen(defs[o]).(*ast.CallExpr); isCall {
+				if tv, ok := info.Types[ast.Unparen(defs[o]).(*ast.CallExpr).Fun]; !ok || !tv.IsType() {
+					continue // results of calls are values, not re-evaluable expressions
+				}
+			}
+			repl[o] = defs[o]
+		}
+	}
+	for i := 0; i < 4; i++ {
+		ne, _ := paths.Subst(info, e, repl).(ast.Expr)
+		if ne == e {
+			break
+		}
+		e = ne
+	}
+	return e
+}
